@@ -252,6 +252,8 @@ def run(ctx: Ctx) -> None:
     from ..wiring import wiring_rule
     sibling_rule(ctx, "R09.sib", mode="accounting")
     wiring_rule(ctx, "R09.wire", which=("data",))
+    from ..wiring import metrics_identity_rule
+    metrics_identity_rule(ctx, "R09.metrics")
 
 
 LOADS = {"LB": "read_byte", "LH": "read_halfword", "LW": "read_word", "LBU": "read_byte", "LHU": "read_halfword"}
